@@ -1730,6 +1730,46 @@ CLEANUP:
 	return qB;
 }
 
+/* a caller-supplied basis must fit the problem: one legal status byte per
+ * column and row, exactly one basic variable per row */
+static int check_basis_arrays (
+	EGLPNUM_TYPENAME_QSdata * p,
+	const char *cstat,
+	const char *rstat)
+{
+	int i, nbas = 0;
+	int nstruct = p->qslp->nstruct;
+	int nrows = p->qslp->nrows;
+
+	for (i = 0; i < nstruct; i++)
+	{
+		if (cstat[i] == QS_COL_BSTAT_BASIC)
+			nbas++;
+		else if (cstat[i] != QS_COL_BSTAT_LOWER && cstat[i] != QS_COL_BSTAT_UPPER &&
+						 cstat[i] != QS_COL_BSTAT_FREE)
+		{
+			QSlog("illegal basis status %d for column %d", (int) cstat[i], i);
+			return 1;
+		}
+	}
+	for (i = 0; i < nrows; i++)
+	{
+		if (rstat[i] == QS_ROW_BSTAT_BASIC)
+			nbas++;
+		else if (rstat[i] != QS_ROW_BSTAT_LOWER && rstat[i] != QS_ROW_BSTAT_UPPER)
+		{
+			QSlog("illegal basis status %d for row %d", (int) rstat[i], i);
+			return 1;
+		}
+	}
+	if (nbas != nrows)
+	{
+		QSlog("basis has %d basic variables for %d rows", nbas, nrows);
+		return 1;
+	}
+	return 0;
+}
+
 EGLPNUM_TYPENAME_QSLIB_INTERFACE int EGLPNUM_TYPENAME_QSload_basis (
 	EGLPNUM_TYPENAME_QSdata * p,
 	QSbasis * B)
@@ -1745,6 +1785,9 @@ EGLPNUM_TYPENAME_QSLIB_INTERFACE int EGLPNUM_TYPENAME_QSload_basis (
 		rval = 1;
 		goto CLEANUP;
 	}
+
+	rval = check_basis_arrays (p, B->cstat, B->rstat);
+	CHECKRVALG (rval, CLEANUP);
 
 	if (p->basis == 0)
 	{
@@ -1771,22 +1814,29 @@ EGLPNUM_TYPENAME_QSLIB_INTERFACE int EGLPNUM_TYPENAME_QSread_and_load_basis (
 	const char *filename)
 {
 	int rval = 0;
+	EGLPNUM_TYPENAME_ILLlp_basis nB;
 
 	rval = check_qsdata_pointer (p);
 	CHECKRVALG (rval, CLEANUP);
 
+	EGLPNUM_TYPENAME_ILLlp_basis_init (&nB);
+	rval = EGLPNUM_TYPENAME_ILLlib_readbasis (p->lp, &nB, filename);
+	if (rval)
+	{
+		/* the problem keeps the basis it had */
+		EGLPNUM_TYPENAME_ILLlp_basis_free (&nB);
+		goto CLEANUP;
+	}
+
 	if (p->basis == 0)
 	{
 		ILL_SAFE_MALLOC (p->basis, 1, EGLPNUM_TYPENAME_ILLlp_basis);
-		EGLPNUM_TYPENAME_ILLlp_basis_init (p->basis);
 	}
 	else
 	{
 		EGLPNUM_TYPENAME_ILLlp_basis_free (p->basis);
 	}
-
-	rval = EGLPNUM_TYPENAME_ILLlib_readbasis (p->lp, p->basis, filename);
-	CHECKRVALG (rval, CLEANUP);
+	*(p->basis) = nB;
 
 CLEANUP:
 
@@ -1821,6 +1871,9 @@ EGLPNUM_TYPENAME_QSLIB_INTERFACE int EGLPNUM_TYPENAME_QSload_basis_array (
 		rval = 1;
 		goto CLEANUP;
 	}
+
+	rval = check_basis_arrays (p, cstat, rstat);
+	CHECKRVALG (rval, CLEANUP);
 
 	if (p->basis == 0)
 	{
@@ -1901,6 +1954,14 @@ EGLPNUM_TYPENAME_QSLIB_INTERFACE int EGLPNUM_TYPENAME_QSwrite_basis (
 
 	if (B)
 	{
+		if (B->nstruct != p->qslp->nstruct || B->nrows != p->qslp->nrows)
+		{
+			QSlog("size of basis does not match lp");
+			rval = 1;
+			goto CLEANUP;
+		}
+		rval = check_basis_arrays (p, B->cstat, B->rstat);
+		CHECKRVALG (rval, CLEANUP);
 		rval = qsbasis_to_illbasis (B, &iB);
 		CHECKRVALG (rval, CLEANUP);
 		basis = &iB;
